@@ -3,8 +3,8 @@
    step (idna_of A cfg, Proofs/C09_InstIdna.v) and the ToUnicode model as idna::domain_to_unicode (origin_tu A cfg).
    No premise about the host functions is left: the premises are the eight sampled adapter facts of C12_5 and, on the
    host of the origin, the computable exclusion of the known classes (host_known_free):
-     a domain d is a ToASCII fixed point at the URL deny list (F-C10-1 is the class where it is not), and is outside
-       Known_C12 / Known_C10_long;
+     a domain d is outside Known_C12 (F-C12-1 / F-C16-1) and Known_C10_long (F-C10-1) - that a domain RETURNED by
+       Host::parse outside Known_C10_long is a fixed point of the IDNA step is proved (returned_domain_fixed, from c10_idem3);
      nothing for an IPv4 address (Proofs/C16_V4.v: the IDNA step maps dotted-decimal text to itself, for every adapter)
      and nothing for an IPv6 address.
    rt_unicode_domain_model: the Unicode serialization for a domain, NON-ASCII ToUnicode forms included (P1, P2 of
@@ -12,7 +12,7 @@
    rt_both_model: both serializations, every host kind. *)
 From RU Require Import Base.Prelude Base.Utf8 Base.Utf8Facts Base.U32_c13 Gen.Tables Model.Punycode Model.Uts46
   Proofs.Idna_Sim Proofs.Idna_Api Proofs.Idna_Known Proofs.Idna_Hyp Proofs.Idna_C10_Deny Proofs.Idna_C10_Inner Proofs.Idna_C10_Walk
-  Proofs.Idna_C10b_Long Proofs.Idna_C10b_Stmt Proofs.Idna_WalkEnc Proofs.Idna_C10c_Drun Proofs.Idna_C10c_Example Proofs.Idna_C12c_Stmt4
+  Proofs.Idna_C10b_Long Proofs.Idna_C10b_Stmt Proofs.Idna_WalkEnc Proofs.Idna_C10c_Drun Proofs.Idna_C10c_Idem Proofs.Idna_C10c_Example Proofs.Idna_C12c_Stmt4
   Proofs.Idna_C12d_Round Proofs.Idna_C12d_Stmt5.
 From RU Require Import Model.HostT Model.Host Model.UrlRecord Model.Parser Model.Origin Proofs.C09_Wf Proofs.C09_Host Proofs.C09_InstIdna
   Proofs.ListN Proofs.C16_Conc Proofs.C16_Origin Proofs.C16_RT Proofs.C16_RT6 Proofs.C16_RT6Model Proofs.C16_RTParsed Proofs.C16_RTU
@@ -25,7 +25,7 @@ Definition origin_tu (A : adapter) (cfg : bool) (d : list N) : list N :=
 (* the host of an origin is outside the known classes *)
 Definition host_known_free (A : adapter) (cfg : bool) (h : host) : Prop :=
   match h with
-  | HDomain d => idna_of A cfg d = Some d /\ Known_C12 A cfg d DENY_URL HAllow = false /\ Known_C10_long d = false
+  | HDomain d => Known_C12 A cfg d DENY_URL HAllow = false /\ Known_C10_long d = false
   | _ => True
   end.
 
@@ -94,6 +94,21 @@ Proof.
   destruct d as [|x r]; [contradiction Hne; reflexivity|]. rewrite Hnum. reflexivity.
 Qed.
 
+(* a domain that Host::parse RETURNED is a fixed point of the IDNA step outside Known_C10_long (C10: idempotence of
+   ToASCII, c10_idem3, six adapter facts) *)
+Lemma returned_domain_fixed t d : hp t = HostT.Ok (HDomain d) -> Known_C10_long d = false -> idna_of A cfg d = Some d.
+Proof.
+  intros Hhp Hlong. destruct (parse_domain (idna_of A cfg) t d (host_parse_ok_x _ _ _ Hhp)) as (Hi & _ & _).
+  set (bs := PercentEncoding.decode (utf8_encode t)) in *.
+  unfold idna_of in Hi. destruct (forallb is_byteb bs) eqn:Eb; [|discriminate]. unfold domain_to_ascii_cow in Hi.
+  destruct (to_ascii A cfg bs DENY_URL HAllow DIgnore) as [[b r]| |] eqn:E; try discriminate. inversion Hi; subst r.
+  pose proof (c10_idem3 A cfg HOK HUSV HNT HNI HNM HMP bs DENY_URL HAllow DIgnore b d (forallb_bytes bs Eb) valid_deny_url E Hlong) as Hid.
+  pose proof (c10_ascii_under_notrunc A cfg HNT bs DENY_URL HAllow DIgnore b d (forallb_bytes bs Eb) valid_deny_url E) as F.
+  assert (Ed : forallb is_byteb d = true).
+  { apply forallb_forall. intros c Hc. rewrite Forall_forall in F. destruct (F c Hc) as [L _]. unfold is_byteb. lia. }
+  unfold idna_of. rewrite Ed. unfold domain_to_ascii_cow. rewrite Hid. reflexivity.
+Qed.
+
 (* ---------- the text origin.rs displays ---------- *)
 Lemma origin_text d b : Forall (fun c => c < 128) d -> to_ascii A cfg d DENY_URL HAllow DIgnore = U32_c13.Ok (b, d) ->
   origin_tu A cfg d = utf8_encode (ui_text (domain_to_unicode A cfg d))
@@ -144,15 +159,16 @@ Qed.
 (* ---------- origins of parse results ---------- *)
 Theorem rt_unicode_domain_model dbg ho input u c s d p c' :
   url_parse dbg hp ho hd input = POk u -> url_origin dbg hp ho hd c u = OOk (Tuple s (HDomain d) p) c' ->
-  idna_of A cfg d = Some d -> Known_C12 A cfg d DENY_URL HAllow = false -> Known_C10_long d = false ->
+  Known_C12 A cfg d DENY_URL HAllow = false -> Known_C10_long d = false ->
   nlen (ascii_serialization hd (Tuple s (HDomain d) p)) < U32_MAX_P ->
   exists w, url_parse dbg hp ho hd (unicode_serialization hd (origin_tu A cfg) (Tuple s (HDomain d) p)) = POk w
             /\ url_origin dbg hp ho hd c' w = OOk (Tuple s (HDomain d) p) c'.
 Proof.
-  intros Hu Ho Hfix HK Hlong HB.
+  intros Hu Ho HK Hlong HB.
   destruct (tuple_origin_facts dbg hp ho hd (fun x => eq_refl) _ c u s (HDomain d) p c'
               (url_parse_good dbg hp ho hd (fun x => eq_refl) input u Hu) Ho) as (H5 & Hp & (t & Hhp) & _).
   destruct (parse_domain (idna_of A cfg) t d (host_parse_ok_x _ _ _ Hhp)) as (_ & Hne & Hnum).
+  pose proof (returned_domain_fixed t d Hhp Hlong) as Hfix.
   destruct (rt_unicode_domain dbg ho s d p H5 Hp Hfix HK Hlong Hne Hnum HB) as (w & Hw & Hw2).
   exists w. split; [exact Hw|apply Hw2].
 Qed.
@@ -170,7 +186,7 @@ Proof.
               (url_parse_good dbg hp ho hd (fun x => eq_refl) input u Hu) Ho) as (H5 & Hp & (t & Hhp) & _).
   pose proof (host_parse_ok_x _ _ _ Hhp) as Hx.
   destruct h as [d|a|ps]; cbn [host_known_free] in HK.
-  - destruct HK as (Hfix & HK12 & Hlong).
+  - destruct HK as (HK12 & Hlong). pose proof (returned_domain_fixed t d Hhp Hlong) as Hfix.
     destruct (parse_domain (idna_of A cfg) t d Hx) as (_ & Hne & Hnum).
     destruct (fixed_domain_facts d Hfix) as (b & _ & _ & Hcl).
     split.
